@@ -2,7 +2,7 @@
 
 def ro_helper(rw):
     # a new in-repo helper receives a package-level slice and only reads it
-    rw.sub("js/js.go", "bytes.HasPrefix(expr.Data, regExpScriptBytes)", "startsWith(expr.Data, regExpScriptBytes)")
+    rw.sub("js/js.go", "bytes.Equal(alias.Name, starBytes)", "startsWith(alias.Name, starBytes)")
     rw.append("js/util.go", """
 func startsWith(b, prefix []byte) bool {
 	if len(b) < len(prefix) {
@@ -253,7 +253,7 @@ var _ = firstRawTag
 
 T = ["c13_facts"]
 REWRITES = [
-    R("c13-ro-helper", T, "invariant", "extract-helper", "bytes.HasPrefix(x, global) replaced by a new in-repo read-only helper", ro_helper, tests=["./js/..."]),
+    R("c13-ro-helper", T, "invariant", "extract-helper", "bytes.Equal(x, global) replaced by a new in-repo read-only helper", ro_helper, tests=["./js/..."]),
     R("c13-ro-helper-chain", T, "invariant", "extract-helper", "new helper passing a package-level slice on to another helper and bytes.Compare", ro_helper_chain, tests=["./svg/..."]),
     R("c13-stdlib-readonly", T + ["c10_api"], "invariant", "add-unrelated-readonly-call", "unrelated helper: bytes.Contains/Index/HasSuffix/Compare/EqualFold/IndexByte/Count, append([]byte(nil), g...)", stdlib_readonly),
     R("c13-rename-writer-param", T + ["c14_exits"], "invariant", "rename-param", "json Minify: writer parameter w -> out", rename_writer_param, tests=["./json/..."]),
